@@ -219,16 +219,20 @@ class ffunc_count(ffunc):
         if self.weights is None:
             return (counts,)
         else:
-            vcount = numpy.sum(self.validity, axis=0)
+            if self.validity.shape:
+                vcount = numpy.sum(self.validity, axis=0)
+                total = len(self.validity)
+            else:
+                # Scalar weight: every row shares its validity.
+                vcount = N if self.validity else 0
+                total = N
             valid_counts = numpy.zeros(cube.working_shape, dtype=int)
             valid_counts[cube.corner] = vcount
             if self.ignore_missing:
                 return counts, valid_counts
             else:
                 missing_counts = numpy.zeros(cube.working_shape, dtype=int)
-                missing_counts[cube.corner] = (
-                    len(self.validity) if self.validity.shape else 1
-                ) - vcount
+                missing_counts[cube.corner] = total - vcount
                 return counts, valid_counts, missing_counts
 
     def fill_func(self, regions):
